@@ -404,9 +404,16 @@ func main() {
 	// function recompiles only the proofs about that family)
 	commonF := parseFile(filepath.Join(repo, "valid/common.go"))
 	fnF := parseFile(filepath.Join(repo, "valid/validfn.go"))
-	fnFiles := map[string]*ast.File{"valid/common.go": commonF, "valid/cache.go": cacheF, "valid/validfn.go": fnF}
+	ruleF := parseFile(filepath.Join(repo, "valid/rule.go"))
+	fnFiles := map[string]*ast.File{"valid/common.go": commonF, "valid/cache.go": cacheF, "valid/validfn.go": fnF, "valid/rule.go": ruleF}
 	writeIfChanged(filepath.Join(outDir, "SourceFnsSize.v"), miniGo(fnFiles, [][2]string{{"valid/common.go", "validInputSize"}, {"valid/validfn.go", "eq"}}))
 	writeIfChanged(filepath.Join(outDir, "SourceFnsParse.v"), miniGo(fnFiles, [][2]string{{"valid/common.go", "ParseValidNameKV"}, {"valid/common.go", "IsExported"}}))
+	writeIfChanged(filepath.Join(outDir, "SourceFnsGen.v"), miniGo(fnFiles, [][2]string{{"valid/rule.go", "GenValidKV"}, {"valid/rule.go", "RM_Set"}, {"valid/rule.go", "RM_Get"}}))
+	writeIfChanged(filepath.Join(outDir, "SourceFnsMsg.v"), miniGo(fnFiles, [][2]string{{"valid/common.go", "GetJoinValidErrStr"}}))
+	writeIfChanged(filepath.Join(outDir, "SourceFnsRule.v"), miniGo(fnFiles, [][2]string{{"valid/validfn.go", "To"}, {"valid/validfn.go", "OTo"},
+		{"valid/validfn.go", "Ge"}, {"valid/validfn.go", "Gt"}, {"valid/validfn.go", "Le"}, {"valid/validfn.go", "Lt"},
+		{"valid/validfn.go", "Eq"}, {"valid/validfn.go", "NoEq"}}))
+	writeIfChanged(filepath.Join(outDir, "SourceFnsToStr.v"), miniGo(fnFiles, [][2]string{{"valid/common.go", "ToStr"}}))
 	writeIfChanged(filepath.Join(outDir, "SourceFnsSplit.v"), miniGo(fnFiles, [][2]string{{"valid/common.go", "ValidNamesSplit"}}))
 	writeIfChanged(filepath.Join(outDir, "SourceFnsLRU.v"), miniGo(fnFiles, [][2]string{{"valid/cache.go", "LRUCache_Store"}, {"valid/cache.go", "LRUCache_Load"},
 		{"valid/cache.go", "LRUCache_Delete"}, {"valid/cache.go", "LRUCache_delete"}, {"valid/cache.go", "LRUCache_Len"}}))
